@@ -45,7 +45,11 @@ OnC(s, e) ==
       s1 == RepIf(e.panic, s, V("panic", s, e, [k |-> e.k, pos |-> e.pos]))
       altered == \E t \in SeqSet(e.tabs) : t \notin SeqSet(s.orig)
       s2 == RepIf(altered, s1, V("altered-table-delivered", s, e, [k |-> e.k, pos |-> e.pos, refok |-> r.ok]))
-  IN RepIf(r.ok /\ r.n = s.nsec /\ e.tabs # s.orig, s2, V("valid-unit-not-delivered", s, e, [k |-> e.k, pos |-> e.pos, ntabs |-> Len(e.tabs), errs |-> e.errs]))
+      \* a table is delivered only for a section the reference decoder accepts (known table, CRC_32 valid, big-endian): judged on one-section
+      \* units, where "the sections accepted before the first bad one" says how many tables there can be at most (in a unit of several sections
+      \* a fault may turn the first into an undecoded table which the library rightly steps over)
+      s3 == RepIf(s.nsec = 1 /\ Len(e.tabs) > r.n, s2, V("table-delivered-without-a-valid-crc", s, e, [k |-> e.k, pos |-> e.pos, ntabs |-> Len(e.tabs), refn |-> r.n]))
+  IN RepIf(r.ok /\ r.n = s.nsec /\ e.tabs # s.orig, s3, V("valid-unit-not-delivered", s, e, [k |-> e.k, pos |-> e.pos, ntabs |-> Len(e.tabs), errs |-> e.errs]))
 
 OnM(s, e) ==
   IF ~e.ok THEN s                                           \* (emission failures are C13's / C04's business)
